@@ -86,6 +86,8 @@ pub fn c05_sharp() -> Vec<Arc<Prog>> {
         // reader of a later key while an earlier key is being linked into the memtable skip list
         // (scheduling points of the verification copy of the skip-list crate: memtable.link)
         prog_big("get-b||put-a", vec![Put(1, 1, 8)], vec![vec![Get(1)], vec![Put(0, 2, 8)]]),
+        prog_big("iterseek-b||put-a", vec![Put(1, 1, 8)], vec![vec![IterSeek(1)], vec![Put(0, 2, 8)]]),
+        prog_big("iterseek-b+iterseek-a||put-a+put-b", vec![Put(0, 1, 8), Put(1, 2, 8)], vec![vec![IterSeek(1), IterSeek(0)], vec![Put(0, 3, 8), Put(1, 4, 8)]]),
         prog_big("iterscan||put-a", vec![Put(1, 1, 8)], vec![vec![IterScan], vec![Put(0, 2, 8)]]),
         prog_big("get-b+get-b||put-a+put-a", vec![Put(0, 1, 8), Put(1, 2, 8)], vec![vec![Get(1), Get(1)], vec![Put(0, 3, 8), Put(0, 4, 8)]]),
         // snapshot read vs writer + flush
@@ -176,6 +178,8 @@ pub fn c06_programs() -> Vec<Arc<Prog>> {
         // plain gets are single-key observations, but the pair must still be linearizable with the
         // batch as one atomic write (first key new, then second key old = not explainable)
         p3("batch2||get+get", pre.clone(), vec![vec![Batch(vec![(0, Some(3)), (1, Some(4))])], vec![Get(0), Get(1)]], big),
+        // the same through fresh iterators positioned with seek(key)
+        p3("batch2||iterseek+iterseek", pre.clone(), vec![vec![Batch(vec![(0, Some(3)), (1, Some(4))])], vec![IterSeek(0), IterSeek(1)]], big),
         p3("batch3||get+get+get", pre.clone(), vec![vec![Batch(vec![(0, Some(3)), (1, Some(4)), (2, Some(5))])], vec![Get(2), Get(1), Get(0)]], big),
         p3("batch2-rotating||get+get", pre.clone(), vec![vec![Batch(vec![(0, Some(3)), (1, Some(4))])], vec![Get(1), Get(0)]], rot_cfg()),
         // two observations by one reader
